@@ -110,6 +110,19 @@ class C16(Prop):
             n = rng.randint(1, 30)
             axis = {"ctor": [start, start + n * step, step]}
             coords = [start + i * step for i in range(n)]
+            if n >= 3 and rng.random() < 0.35:
+                # history: the array was used, then cut down (isel / sel / crop_dim keep the coordinate's attributes): the
+                # lookup must be about the axis the array has now
+                i0 = rng.randint(0, n - 2)
+                i1 = rng.randint(i0 + 1, n)
+                full = coords
+                axis["crop"] = [i0, i1, rng.choice(["isel", "sel", "crop_dim"])]
+                coords = coords[i0:i1]
+                if rng.random() < 0.7:
+                    outside = [x for x in full if x < coords[0] or x > coords[-1]]
+                    if outside:
+                        v = rng.choice(outside) + rng.choice([Fraction(0), step / 2, -step / 4])
+                        return {"kind": "index", "axis": axis, "v": v, "raise": rng.random() < 0.5}
         else:
             n = rng.randint(1, 12)
             x = Fraction(rng.randint(-16, 16), 4)
@@ -232,6 +245,21 @@ class C16(Prop):
                 s, e, st = ax["ctor"]
                 var = D.create_range_dim("time", float(s), float(e), step=float(st))
                 arr = xr.DataArray(np.zeros(var.shape[0]), dims=["time"], coords={"time": var})
+                if ax.get("crop"):
+                    i0, i1, via = ax["crop"]
+                    full = [float(x) for x in arr.coords["time"].data]
+                    for warm in (lambda: D.get_coord_index(arr, "time", full[0]), lambda: D.get_dim_range(arr, "time"),
+                                 lambda: O.set_value_at_pos(arr.copy(), 1.0, time=full[-1])):
+                        try:
+                            warm()
+                        except Exception:
+                            pass
+                    if via == "isel":
+                        arr = arr.isel(time=slice(i0, i1))
+                    elif via == "sel":
+                        arr = arr.sel(time=slice(full[i0], full[i1 - 1]))
+                    else:
+                        arr = arrays.crop_dim(arr, "time", start=full[i0], stop=full[i1 - 1], right_closed=True)
             else:
                 cs = [float(x) for x in ax["raw"]]
                 arr = xr.DataArray(np.zeros(len(cs)), dims=["time"], coords={"time": cs})
